@@ -26,7 +26,7 @@ RULE = ('Hypothesis builtin sweep: every name in the live FUNCTIONS table called
         'shape tables (4/5) or an untyped hostile pool (1/5): scalars, nested lists/tuples/dicts, lambdas, builtins as '
         'values, attribute-/format-/path-like strings; one argument may itself be another builtin call; embedded in 10 '
         'program forms (store, index, call the result, pipe, map body...); 1 call in 5 is a well-formed call with one argument '
-        'swapped for a callable and up to two extra arguments; a probe matrix per drawn builtin and well-formed argument list: a program '
+        'swapped for a callable and up to two extra arguments; a fixed corpus (every regex builtin on a catastrophic pattern, all call forms: the timeout path); a probe matrix per drawn builtin and well-formed argument list: a program '
         'lambda at EVERY argument position x 18 tails of optional/extra arguments (flags, counts, None, codec); the shared parser earlier served failing calls that bound host '
         'callables returning modules (fetch9), which later programs try to reach; 1 in 12 evaluated on a fresh worker thread with '
         'the parser built on the main thread. Plus typed programs. Host names hold plain data '
@@ -354,12 +354,27 @@ def probe_sources(case):
             yield f'{name}({", ".join(parts)})', names
 
 
+def fixed_cases():
+    """cases every run performs whatever the seed: each regex builtin on the catastrophic (subject, pattern) pair that makes it hit
+    REGEX_TIMEOUT (the error path of the regex helpers), in every call form, with and without flags"""
+    subj, pat = shapes.STRS[0], shapes.PATS[0]
+    out = []
+    for b in ('match', 'match_groups', 'match_all'):
+        for form in ('{b}(a0, a1)', 'a0 | {b}(a1)', 'a0.{b}(a1)', '{b}(a0, a1, a2)', 'r = {b}(a0, a1)\nr', 'map([a0], v => {b}(v, a1))'):
+            for fl in ('', 'i'):
+                out.append({'src': form.format(b=b), 'names': core.enc({'a0': subj, 'a1': pat, 'a2': fl}), 'builtin': b, 'interesting': True})
+    out.append({'src': 'replace(a0, a1, a2)', 'names': core.enc({'a0': subj, 'a1': pat, 'a2': ''}), 'builtin': 'replace', 'interesting': True})
+    out.append({'src': 'split(a0, a1)', 'names': core.enc({'a0': subj, 'a1': pat}), 'builtin': 'split', 'interesting': True})
+    return out
+
+
 def jobs(tier, seed):
     per = 1500 if tier == 'quick' else 70000
     js = [('sweep', core.derive_seed(seed, 'c02', i), per) for i in range(15)]
     js += [('probe', core.derive_seed(seed, 'c02p', i), 12 if tier == 'quick' else 400, i) for i in range(8)]
     js.append(('typed', core.derive_seed(seed, 'c02t'), 3000 if tier == 'quick' else 60000))
     js.append(('cold', 0, 0))
+    js.append(('fixed', 0, 0))
     return js
 
 
@@ -377,7 +392,13 @@ def run_job(job):
     setup_worker()
     import smartquery.functions as Fn
     table = sorted(Fn.FUNCTIONS)
-    if kind == 'sweep':
+    if kind == 'fixed':
+        for case in fixed_cases():
+            fails, info = run_source(case['src'], core.dec(case['names']), case)
+            st.case(key=case['src'] + repr(case['names']), nontrivial=True, classes=('fixed:regex-timeout-path', 'outcome:' + info['outcome']))
+            for f in fails:
+                st.fail(f)
+    elif kind == 'sweep':
         calls = {}
         oks = {}
 
